@@ -799,6 +799,13 @@ struct Runner {
                 _exit(2);
             }
         }
+        if (g.contains("pre")) { // the path must have produced the planned state (its own events are judged like all others)
+            if (chars_of(*ob[0]) != vec_of(g["pre"]["a"]) || chars_of(*ob[1]) != vec_of(g["pre"]["b"])) {
+                std::fprintf(stderr, "STATE-MISMATCH %s group %ld: the path did not reach the planned state, group skipped\n",
+                    inst.c_str(), rec_idx);
+                return;
+            }
+        }
         S const sa(*ob[0]);
         S const sb(*ob[1]);
         auto restore = [&] {
